@@ -276,6 +276,16 @@ def loop_name(frame, ordinal):
     return "%s/loop%d" % (short(frame.fi.key), ordinal)
 
 
+def _element_alias(frame, s, loop):
+    """the name under which the contract speaks of the loop's element, if the code calls it differently: the single entry of
+    local_types that occurs nowhere in the function (so it can only mean the element) while the loop variable has no entry"""
+    if not isinstance(s.target, ast.Name) or s.target.id in loop.local_types or frame.fi is None:
+        return None
+    used = {n.id for n in ast.walk(frame.fi.node) if isinstance(n, ast.Name)} | {a.arg for a in ast.walk(frame.fi.node) if isinstance(a, ast.arg)}
+    cands = [k for k in loop.local_types if k not in used]
+    return cands[0] if len(cands) == 1 else None
+
+
 def symbolic_for(I, frame, s, it, ordinal):
     ctx = I.ctx
     loop = find_loop_spec(I, frame, ordinal)
@@ -291,6 +301,7 @@ def symbolic_for(I, frame, s, it, ordinal):
     if not (isinstance(it, SV) and isinstance(it.ty, TSeq)):
         raise Unsupported("for loop over %r" % (it,))
     name = loop_name(frame, ordinal)
+    alias = _element_alias(frame, s, loop)
     n = z3.Select(ctx.field_array("$len"), ctx.ref_id(it))
     ctx.assume(n >= 0)
     entry_heap = ctx.snapshot()
@@ -311,6 +322,9 @@ def symbolic_for(I, frame, s, it, ordinal):
             val = map_get(I, map_iter.m, elem)
             elem = val if map_iter.mode == "values" else VTuple([elem, val])
         I.assign(frame, s.target, elem)
+        if alias is not None:
+            # the contract names the loop's element differently from the code (a renamed loop variable): same value under both names
+            frame.locals[alias] = ctx.typed(frame.locals[s.target.id].t, loop.local_types[alias]) if isinstance(frame.locals[s.target.id], SV) else frame.locals[s.target.id]
         iter_heap = ctx.snapshot()
         iter_tr = ctx.trlen
         iter_locals = dict(frame.locals)
